@@ -55,8 +55,11 @@ impl Ctx {
             }
         }
         self.nviol.fetch_add(1, Ordering::Relaxed);
+        // keep the first three witnesses of EACH oracle (a check reports only the oracles of its own property, so an early flood of
+        // findings of one oracle must not push the others out)
         let mut v = self.violations.lock().unwrap();
-        if v.len() < 10 {
+        let same = v.iter().filter(|x| x["unit"] == unit).count();
+        if same < 3 && v.len() < 90 {
             v.push(json!({"unit": unit, "clause": clause, "input": input, "observed": observed, "required": required}));
         }
     }
